@@ -1,6 +1,9 @@
 import TexcraftModel.Lemmas.C02
 import TexcraftModel.Lemmas.C02Kmp
 import TexcraftModel.Lemmas.C02Def
+import TexcraftModel.Lemmas.C02Stream
+import TexcraftModel.Lemmas.C02DefInv
+import TexcraftModel.Lemmas.C02Spec
 
 /-!
 # C02 — macro parameters bind and substitute exactly as in TeX: the property statements
@@ -190,7 +193,7 @@ theorem bind_eq_spec (ps : List Param) (hok : ∀ p ∈ ps, ParamOK p) (i : Nat)
 def exMacro : SpecMacro :=
   ⟨[], [[.ch 46], []], false, [.lit (.ch 91), .arg 0, .hash, .lit (.ch 44), .arg 1, .lit (.ch 93)]⟩
 
-example : SMValid exMacro where
+theorem exMacro_valid : SMValid exMacro where
   pre := by simp [exMacro]
   delims := by simp [exMacro, Plain]
   nparams := by simp [exMacro]
@@ -226,5 +229,207 @@ example : DelimWF [.ch 46, .bg] := ⟨by simp, [.ch 46], by simp [NoBrace], Or.i
 
 example : specUndelim [.sp, .bg, .ch 120, .bg, .eg, .eg, .ch 121] = some ([.ch 120, .bg, .eg], [.ch 121]) := by
   decide
+
+/-! ## The token stream (`vm/streams.rs`): the list view is a theorem, not an assumption
+
+`Model/C02Stream.lean` models the current source, the stack of enclosing sources, the pending
+(expanded / pushed-back) tokens of each — a stack whose last element is the next token — and
+its lexer, and transcribes the call again over `next` / `back` / `expansions_mut().extend`.
+`st.flat` is the list the stream will deliver. -/
+
+/-- `next_unexpanded` delivers the head of the list view and leaves its tail: pending tokens
+before the lexer of the same source, an inner source before the sources that enclose it;
+`None` only when nothing at all is left. -/
+theorem stream_next_delivers (st : Stream) :
+    match st.next with
+    | (none, st') => st.flat = [] ∧ st'.flat = []
+    | (some t, st') => st.flat = t :: st'.flat := by
+  cases h : st.next with
+  | mk o st' =>
+    cases o with
+    | none => exact next_none h
+    | some t => exact next_some h
+
+/-- `back` puts a token in front; writing a (reversed) expansion onto the pending stack puts
+the expansion, in reading order, in front. -/
+theorem stream_back_push (st : Stream) (t : Tok) (stack : List Tok) :
+    (st.back t).flat = t :: st.flat ∧ (st.pushStack stack).flat = stack.reverse ++ st.flat :=
+  ⟨back_flat st t, pushStack_flat st stack⟩
+
+/-- **The call over the stream is the call over the list view**, for every macro and every
+arrangement of the upcoming tokens over pending stacks, lexers and enclosing sources: same
+result (the stream after the call delivers exactly what `call` returns), same error; the fuel
+of the stream-level loops never runs out. -/
+theorem stream_call_refines (m : Macro) (st : Stream) :
+    (∀ out, call m st.flat = .ok out → ∃ st', callS m st = .ok st' ∧ st'.flat = out) ∧
+    (∀ e, call m st.flat = .err e → callS m st = .err e) ∧
+    (∀ st', callS m st = .ok st' → call m st.flat = .ok st'.flat) ∧
+    (callS m st = .panic → call m st.flat = .panic) := by
+  have h := callWithS_rel shouldTrim m st
+  unfold call callS
+  cases h1 : callWith shouldTrim m st.flat <;> cases h2 : callWithS shouldTrim m st <;>
+    rw [h1, h2] at h <;> simp_all [RelS0]
+
+/-- **Headline for the stream**: for every valid parameter text and replacement text, the
+macro `\def` stores is such that, wherever the tokens of a matching call sit — in the file
+that ends with the call, among the pending tokens of an enclosing source, in its lexer, split
+over all of them — the call succeeds and what is read afterwards, token by token, is exactly
+TeX's result: the replacement with the arguments substituted, then the untouched rest. -/
+theorem stream_call_delivers_spec {s : SpecMacro} (h : SMValid s) :
+    ∃ m, (∀ tail, defParse (renderDef s ++ tail) = .ok (m, tail)) ∧
+      ∀ (st : Stream) (out : List Tok), specExpand s st.flat = some out →
+        ∃ st', callS m st = .ok st' ∧ ∀ fuel, out.length ≤ fuel → readAll fuel st' = out := by
+  obtain ⟨m, hdef, hcall⟩ := call_eq_spec h
+  refine ⟨m, hdef, ?_⟩
+  intro st out hs
+  obtain ⟨st', h1, h2⟩ := (stream_call_refines m st).1 out (hcall st.flat out hs)
+  exact ⟨st', h1, fun fuel hf => by rw [readAll_flat fuel st' (by rw [h2]; exact hf), h2]⟩
+
+/-- Non-vacuity (the shape of the second-round seeded change): `\def\A#1{[#1]}`, the file ends
+right after `\A`; the enclosing source has the pending tokens `{x}y` and `z!` in its lexer.
+Reading after the call gives `[x]yz!`. -/
+example : ∃ m, compile ⟨[], [[]], false, [.lit (.ch 91), .arg 0, .lit (.ch 93)]⟩ = some m ∧
+    (match callS m ⟨⟨[], []⟩, [⟨[.ch 121, .eg, .ch 120, .bg], [.ch 122, .ch 33]⟩]⟩ with
+     | .ok st' => readAll 20 st'
+     | _ => []) = [.ch 91, .ch 120, .ch 93, .ch 121, .ch 122, .ch 33] :=
+  ⟨_, rfl, by decide⟩
+
+/-! ## The definition parser accepts exactly the valid definitions; nothing panics -/
+
+/-- **`\def` accepts a text iff it is a valid definition.** `defParse` succeeds on `inp`
+leaving `rest` exactly when `inp` is, followed by `rest`, the rendering of some macro
+description `s` with: prefix and delimiters free of braces and `#`; the parameters written
+`#1`, `#2`, … in this order (that is what `renderDef` writes), at most nine; an optional final
+`#{`; a replacement text over non-`#` tokens with balanced braces, `#n` with `n` at most the
+number of parameters, and `##`. Everything else — a `}` in the parameter text, `#` followed
+by the wrong digit or a non-digit, a tenth parameter, `#n` out of range or `#` followed by
+something else in the replacement text, a missing end — is rejected with an error (never a
+panic: `defParse_total`). The stored macro is `compile s`. -/
+theorem defParse_accepts_iff {inp rest : List Tok} :
+    (∃ m, defParse inp = .ok (m, rest)) ↔ ∃ s, SMValid s ∧ inp = renderDef s ++ rest := by
+  constructor
+  · rintro ⟨m, h⟩
+    obtain ⟨s, hs, hinp, _⟩ := defParse_inv h
+    exact ⟨s, hs, hinp⟩
+  · rintro ⟨s, hs, rfl⟩
+    obtain ⟨m, hm⟩ := compile_some hs
+    exact ⟨m, defParse_render hs hm rest⟩
+
+/-- …and the description is the one the call theorem is about: an accepted definition stores
+`compile s`, so `call_eq_spec` applies to **every** macro `\def` can produce. -/
+theorem defParse_accepted_meets_spec {inp rest : List Tok} {m : Macro} (h : defParse inp = .ok (m, rest)) :
+    ∃ s, SMValid s ∧ inp = renderDef s ++ rest ∧
+      ∀ (st : Stream) (out : List Tok), specExpand s st.flat = some out →
+        ∃ st', callS m st = .ok st' ∧ st'.flat = out := by
+  obtain ⟨s, hs, hinp, hm⟩ := defParse_inv h
+  refine ⟨s, hs, hinp, ?_⟩
+  intro st out hsp
+  exact (stream_call_refines m st).1 out (call_compile hs hm hsp)
+
+/-- The definition parser returns a macro or an error, never a panic (`Matcher::new` is
+total on the delimiters it is given). -/
+theorem defParse_total (inp : List Tok) : defParse inp ≠ .panic := defParse_no_panic' inp
+
+/-- A macro stored by `\def` never makes the call panic — on any input, matching or not, over
+the list view and over the stream: no index out of range in the KMP matcher, in the argument
+slices or in `arguments.get(i).unwrap()`. -/
+theorem call_total {inp rest : List Tok} {m : Macro} (h : defParse inp = .ok (m, rest)) :
+    (∀ inp2, call m inp2 ≠ .panic) ∧ (∀ st : Stream, callS m st ≠ .panic) := by
+  obtain ⟨s, hs, _, hm⟩ := defParse_inv h
+  have h1 : ∀ inp2, call m inp2 ≠ .panic := call_no_panic_of_compile hs hm
+  exact ⟨h1, fun st hp => h1 st.flat ((stream_call_refines m st).2.2.2 hp)⟩
+
+/-- Non-vacuity and sharpness of `defParse_accepts_iff`: `#1.#2{[#1##,#2]}` is accepted;
+`#1#3{}`, a tenth parameter, `#1{#2}` and `}` are rejected with TeX's four errors. -/
+example : (∃ m, defParse (renderDef exMacro ++ [.ch 122]) = .ok (m, [.ch 122])) ∧
+    defParse [.param, .ch 49, .param, .ch 51, .bg, .eg] = .err .badParamNumber ∧
+    defParse ((List.range 9).flatMap (fun i => [Tok.param, .ch (49 + i)]) ++ [.param, .ch 49, .bg, .eg])
+      = .err .tooManyParams ∧
+    defParse [.param, .ch 49, .bg, .param, .ch 50, .eg] = .err .illegalParamNumber ∧
+    defParse [.eg] = .err .unexpectedEndGroup :=
+  ⟨defParse_accepts_iff.mpr ⟨exMacro, exMacro_valid, rfl⟩, by decide, by decide, by decide, by decide⟩
+
+/-! ## The executable specification is the declarative one -/
+
+/-- `specUndelim` returns `(a, rest)` **iff** the input is space tokens followed by one
+non-brace, non-space token `t` (`a = [t]`) or by `{ a }` with `a` balanced. -/
+theorem spec_undelimited_iff {inp a rest : List Tok} :
+    specUndelim inp = some (a, rest) ↔
+      ∃ sps tl, inp = sps ++ tl ∧ (∀ t ∈ sps, t = .sp) ∧
+        ((∃ t, t ≠ .sp ∧ t ≠ .bg ∧ t ≠ .eg ∧ tl = t :: rest ∧ a = [t]) ∨
+         (tl = .bg :: a ++ .eg :: rest ∧ Balanced a)) := by
+  constructor
+  · exact spec_undelimited_next
+  · rintro ⟨sps, tl, rfl, hsp, ⟨t, h1, h2, h3, rfl, rfl⟩ | ⟨rfl, hbal⟩⟩
+    · exact specUndelim_tok sps t rest hsp h1 h2 h3
+    · have := specUndelim_group sps a rest hsp hbal
+      simpa using this
+
+/-- **The property's quantifier, declaratively**: the executable `specBind` succeeds with
+`(args, rest)` iff `Binds` holds — for every parameter, left to right: undelimited = after
+space tokens the next non-brace token or the contents of the next balanced group; delimited
+by `d` = the shortest balanced run followed by `d`, with one pair of braces removed iff it is
+a single group. So "the call matches" (`specExpand = some _`) in `call_eq_spec` means exactly
+that such an argument tuple exists, and then it is unique. -/
+theorem spec_bind_iff {ds : List (List Tok)} {inp rest : List Tok} {args : List (List Tok)} :
+    specBind ds inp = some (args, rest) ↔ Binds ds inp args rest := by
+  constructor
+  · intro h
+    induction ds generalizing inp args rest with
+    | nil => simp [specBind] at h; obtain ⟨rfl, rfl⟩ := h; exact Binds.nil _
+    | cons d ds ih =>
+      simp only [specBind] at h
+      by_cases hd : d = []
+      · subst hd
+        simp only [if_true] at h
+        cases hr : specUndelim inp with
+        | none => simp [hr] at h
+        | some r =>
+          obtain ⟨a, r1⟩ := r
+          simp only [hr] at h
+          cases hb : specBind ds r1 with
+          | none => simp [hb] at h
+          | some r2 =>
+            obtain ⟨as, rest'⟩ := r2
+            simp only [hb] at h
+            simp at h; obtain ⟨rfl, rfl⟩ := h
+            have hrec := ih hb
+            obtain ⟨sps, tl, rfl, hsp, ⟨t, h1, h2, h3, rfl, rfl⟩ | ⟨rfl, hbal⟩⟩ := spec_undelimited_next hr
+            · exact Binds.undelimTok sps t r1 ds as rest' hsp h1 h2 h3 hrec
+            · have := Binds.undelimGroup sps a r1 ds as rest' hsp hbal hrec
+              simpa using this
+      · simp only [hd, if_false] at h
+        cases hr : specDelim d inp with
+        | none => simp [hr] at h
+        | some r =>
+          obtain ⟨a, r1⟩ := r
+          simp only [hr, Option.map_some] at h
+          cases hb : specBind ds r1 with
+          | none => simp [hb] at h
+          | some r2 =>
+            obtain ⟨as, rest'⟩ := r2
+            simp only [hb] at h
+            simp at h; obtain ⟨rfl, rfl⟩ := h
+            obtain ⟨rfl, hbal, hmin⟩ := spec_delimited_shortest hr
+            exact Binds.delim d a r1 ds as rest' hd hbal hmin (ih hb)
+  · intro h
+    induction h with
+    | nil inp => simp [specBind]
+    | undelimTok sps t inp ds as rest hsp h1 h2 h3 _ ih =>
+      simp [specBind, specUndelim_tok sps t inp hsp h1 h2 h3, ih]
+    | undelimGroup sps a inp ds as rest hsp hbal _ ih =>
+      have := specUndelim_group sps a inp hsp hbal
+      simp only [List.append_assoc, List.cons_append] at this ⊢
+      simp [specBind, this, ih]
+    | delim d a inp ds as rest hd hbal hmin _ ih =>
+      have := spec_delimited_iff.mpr ⟨rfl, hbal, hmin⟩
+      simp only [List.append_assoc] at this
+      simp [specBind, hd, this, ih]
+
+/-- Non-vacuity of `Binds`: `#1.#2` on `{x}{y}. {z}w` binds `{x}{y}` and `z`. -/
+example : Binds [[.ch 46], []]
+    [.bg, .ch 120, .eg, .bg, .ch 121, .eg, .ch 46, .sp, .bg, .ch 122, .eg, .ch 119]
+    [[.bg, .ch 120, .eg, .bg, .ch 121, .eg], [.ch 122]] [.ch 119] :=
+  spec_bind_iff.mp (by decide)
 
 end C02
